@@ -4,6 +4,111 @@ package js
 
 // Contracts for the deductive verifier under /verif (comment-only; build tag verif).
 
+// ---- the generated lexer (C12) ----
+// Inlined form without backtracking: a negative table entry -1-r accepts rule r (rule 0: no match,
+// rule 1: the explicit eoi rule, reached only through state 187 on the end-of-input column).
+
+//@ table tmRuneClass
+//@   fact len(tmRuneClass) == 256
+//@   fact forall i in 0..len(tmRuneClass) :: 1 <= tmRuneClass[i] && tmRuneClass[i] < 67
+
+// the compressed rune map (a slice of structs): its facts are evaluated on the initialised variable
+//@ table tmRuneRanges
+//@   fact len(tmRuneRanges) == 589
+//@   fact forall i in 0..len(tmRuneRanges) :: 1 <= tmRuneRanges[i].defaultVal && tmRuneRanges[i].defaultVal < 67 && 0 <= tmRuneRanges[i].lo && tmRuneRanges[i].lo < tmRuneRanges[i].hi
+//@   fact forall i in 0..len(tmRuneRanges) :: forall j in 0..len(tmRuneRanges[i].val) :: 1 <= tmRuneRanges[i].val[j] && tmRuneRanges[i].val[j] < 67
+//@   fact forall i in 0..len(tmRuneRanges)-1 :: tmRuneRanges[i].hi <= tmRuneRanges[i+1].lo
+
+//@ table tmStateMap
+//@   fact len(tmStateMap) == 10
+//@   fact forall i in 0..len(tmStateMap) :: startState(tmStateMap[i])
+
+//@ table tmToken
+//@   fact len(tmToken) == 158
+//@   fact forall i in 0..len(tmToken) :: 0 <= tmToken[i] && tmToken[i] < 174 && (tmToken[i] == 0 <==> i == 1)
+
+//@ table tmLexerAction
+//@   fact len(tmLexerAction) == 240 * 67
+//@   fact forall i in 0..len(tmLexerAction) :: -158 <= tmLexerAction[i] && tmLexerAction[i] < 240
+// a start state accepts nothing but "no match" (-1): a token is never empty; on the end-of-input column it goes to state 187
+//@   fact forall i in 0..len(tmLexerAction) :: startState(i / 67) ==> tmLexerAction[i] >= -1
+//@   fact tmLexerAction[0] == 187 && tmLexerAction[188*67] == 187 && tmLexerAction[191*67] == 187 && tmLexerAction[206*67] == 187 && tmLexerAction[207*67] == 187 && tmLexerAction[209*67] == 187 && tmLexerAction[236*67] == 187
+// state 187 is entered on the end-of-input column only and accepts the eoi rule (-2) on every column; nothing else does
+//@   fact forall i in 0..len(tmLexerAction) :: !startState(tmLexerAction[i])
+//@   fact forall i in 0..len(tmLexerAction) :: (tmLexerAction[i] == 187 ==> i % 67 == 0 && startState(i / 67)) && (tmLexerAction[i] == -2 <==> (187*67 <= i && i < 188*67))
+// every other state accepts on the end-of-input column
+//@   fact forall s in 0..240 :: !startState(s) ==> tmLexerAction[s*67] < 0
+
+//@ pred startState(s int) = s == 0 || s == 188 || s == 191 || s == 206 || s == 207 || s == 209 || s == 236
+
+// mapRune: the class of a rune outside Latin-1, by binary search in tmRuneRanges; always a class.
+//@ func mapRune
+//@   ensures 1 <= result && result < 67
+//@   loop 1:
+//@     invariant 0 <= lo && lo <= hi && hi <= len(tmRuneRanges)
+//@     decreases hi - lo
+
+//@ pred wfWindow(l *Lexer) = 0 <= l.offset && l.offset <= l.scanOffset && l.scanOffset <= len(l.source) && (l.ch == -1 <==> l.offset == len(l.source)) && (l.offset == len(l.source) ==> l.scanOffset == l.offset) && (l.offset < len(l.source) ==> l.scanOffset > l.offset && l.scanOffset <= l.offset + 4 && 0 <= l.ch && l.ch <= 1114111)
+//@ pred wfChar(l *Lexer) = newlines(l.source, l.offset, l.scanOffset) == (l.ch == 10 ? 1 : 0)
+//@ pred wfLine(l *Lexer) = l.line == 1 + newlines(l.source, 0, l.offset)
+// the lexer state and every saved state on the JSX stack is one of the ten start conditions
+//@ pred wfState(l *Lexer) = 0 <= l.State && l.State <= 9 && forall k in 0..len(l.Stack) :: 0 <= l.Stack[k] && l.Stack[k] <= 9
+
+//@ func Lexer.rewind
+//@   requires 0 <= l.offset && l.offset <= len(l.source) && wfLine(l) && 0 <= offset
+//@   modifies l.ch, l.offset, l.scanOffset, l.line
+//@   ensures wfWindow(l) && wfChar(l) && wfLine(l)
+//@   ensures l.offset == (offset > len(l.source) ? len(l.source) : offset)
+
+//@ func Lexer.Init
+//@   modifies l.source, l.ch, l.offset, l.scanOffset, l.tokenOffset, l.line, l.tokenLine, l.State, l.Dialect, l.token, l.Stack
+//@   ensures wfWindow(l) && wfChar(l) && wfLine(l) && wfState(l) && l.source == source
+//@   ensures l.tokenOffset == 0 && (l.offset == 0 || l.offset == 3) && l.State == 0 && len(l.Stack) == 0
+
+//@ func Lexer.pushState
+//@   requires wfState(l) && 0 <= newState && newState <= 9
+//@   modifies l.State, l.Stack, l.Stack[0:cap(l.Stack)]
+//@   ensures wfState(l) && l.State == newState && len(l.Stack) == old(len(l.Stack)) + 1 && l.Stack[len(l.Stack)-1] == old(l.State)
+//@   ensures forall k in 0..old(len(l.Stack)) :: l.Stack[k] == old(l.Stack[k])
+//@   ensures fresh(l.Stack) || (samearray(l.Stack, old(l.Stack)) && cap(l.Stack) == old(cap(l.Stack)))
+
+//@ func Lexer.popState
+//@   requires wfState(l)
+//@   modifies l.State, l.Stack
+//@   ensures wfState(l) && (old(len(l.Stack)) > 0 ==> l.State == old(l.Stack[len(l.Stack)-1]) && len(l.Stack) == old(len(l.Stack)) - 1) && (old(len(l.Stack)) == 0 ==> l.State == 1 && len(l.Stack) == 0)
+//@   ensures forall k in 0..len(l.Stack) :: l.Stack[k] == old(l.Stack[k])
+//@   ensures samearray(l.Stack, old(l.Stack)) && cap(l.Stack) == old(cap(l.Stack))
+
+// Copy: the same lexer without its JSX stack (used for lookahead)
+//@ func Lexer.Copy
+//@   ensures sameslice(result.source, l.source) && result.ch == l.ch && result.offset == l.offset && result.scanOffset == l.scanOffset && result.tokenOffset == l.tokenOffset && result.line == l.line && result.tokenLine == l.tokenLine
+//@   ensures result.State == l.State && result.Dialect == l.Dialect && result.token == l.token && len(result.Stack) == 0 && cap(result.Stack) == 0
+
+// Next (C12): as for the other generated lexers - the window/line invariant and the state invariant
+// are kept, tokens come in source order, every token except EOI is non-empty, EOI only at the end of
+// the source, tokenLine is the line of the token's first byte; the restart loop strictly advances.
+//@ func Lexer.Next
+//@   option split-joins=post
+//@   requires wfWindow(l) && wfChar(l) && wfLine(l) && wfState(l)
+//@   modifies l.ch, l.offset, l.scanOffset, l.tokenOffset, l.line, l.tokenLine, l.State, l.token, l.Stack, l.Stack[0:cap(l.Stack)]
+//@   ensures wfWindow(l) && wfChar(l) && wfLine(l) && wfState(l)
+//@   ensures old(l.offset) <= l.tokenOffset && l.tokenOffset <= l.offset
+//@   ensures result != token.EOI ==> l.tokenOffset < l.offset
+//@   ensures result == token.EOI ==> l.tokenOffset == len(l.source) && l.offset == len(l.source)
+//@   ensures l.tokenLine == 1 + newlines(l.source, 0, l.tokenOffset)
+//@   ensures 0 <= result && result < 174 && l.token == result
+//@   ensures fresh(l.Stack) || (samearray(l.Stack, old(l.Stack)) && cap(l.Stack) == old(cap(l.Stack)))
+//@   loop 1:
+//@     invariant wfWindow(l) && wfChar(l) && wfLine(l) && wfState(l) && old(l.offset) <= l.offset && sameslice(l.Stack, old(l.Stack))
+//@     decreases len(l.source) - l.offset
+//@   loop 2:
+//@     invariant wfWindow(l) && wfChar(l) && wfLine(l) && wfState(l)
+//@     invariant old(l.offset) <= l.tokenOffset && l.tokenOffset <= l.offset && l.tokenLine == 1 + newlines(l.source, 0, l.tokenOffset)
+//@     invariant -158 <= state && state < 240
+//@     invariant l.offset == l.tokenOffset ==> startState(state) || state == -1 || state == 187 || state == -2
+//@     invariant state == 187 || state == -2 ==> l.ch == -1 && l.offset == l.tokenOffset
+//@     invariant startState(state) ==> l.offset == l.tokenOffset
+
 // ---- the token stream (C20): pending comments and invalid tokens are reported before the symbol that follows them ----
 
 // reportIgnored hands one pending token to the listener (a function value: see option callback-frame).
